@@ -611,6 +611,31 @@ pub fn eval_root_pair<P: PType, A: Side<P>, B: Side<P>>(
     out
 }
 
+/// C18: a membership / order / tag / annotation mismatch that disappears when both operands store
+/// the same representation means that host bits are not ignored by the set operation
+pub fn add_repr_dependence<P: PType, A: Side<P>, B: Side<P>>(vs: Vec<Viol>, a_hist: &[crate::ops::Op], b_hist: &[crate::ops::Op], qa: GK, qb: GK, uni: &Universe) -> Vec<Viol> {
+    let mut vs = vs;
+    if vs.iter().any(|v| matches!(v.prop, "C05" | "C06" | "C07" | "C08")) {
+        let flip = |h: &[crate::ops::Op]| -> Vec<crate::ops::Op> { h.iter().map(|o| crate::ops::Op { rep: 0, ..*o }).collect() };
+        let ko = KeyOpts { reps: false, layout: false, no_free: true };
+        if let (Some(a0), Some(b0)) = (crate::registry::rebuild::<A>(uni, &flip(a_hist), ko), crate::registry::rebuild::<B>(uni, &flip(b_hist), ko)) {
+            let (mut am0, mut bm0) = (a0.map.clone(), b0.map.clone());
+            let (mut sa0, mut sb0) = (a0.model.entries(), b0.model.entries());
+            let mut c0 = PairCounters::default();
+            let same_rep = guarded(|| eval_root_pair::<P, A, B>(&mut am0, &mut bm0, &mut sa0, &mut sb0, with_rep(qa, 0, uni.width), with_rep(qb, 0, uni.width), uni.width, 1_000_000, &mut c0));
+            if let Ok(vs0) = same_rep {
+                let extra: Vec<Viol> = vs
+                    .iter()
+                    .filter(|v| matches!(v.prop, "C05" | "C06" | "C07" | "C08") && !vs0.iter().any(|w| w.prop == v.prop && w.site == v.site && w.cond == v.cond))
+                    .map(|v| Viol::new("C18", v.site.clone(), "set-operation-depends-on-host-bits", format!("with representations differing only in host bits: {}; with identical representations the result is correct", v.detail)))
+                    .collect();
+                vs.extend(extra);
+            }
+        }
+    }
+    vs
+}
+
 #[derive(Clone, Debug)]
 pub struct PairFound {
     pub viol: Viol,
@@ -684,27 +709,7 @@ pub fn run_pairs<P: PType, A: Side<P>, B: Side<P>>(left: &[PState<A>], right: &[
                                         vec![Viol::new("C20", "set operation", "panic", msg)]
                                     }
                                 };
-                                // C18: a membership / order / tag / annotation mismatch that disappears when both
-                                // operands store the same representation means that host bits are not ignored
-                                let mut vs = vs;
-                                if vs.iter().any(|v| matches!(v.prop, "C05" | "C06" | "C07" | "C08")) {
-                                    let flip = |h: &[crate::ops::Op]| -> Vec<crate::ops::Op> { h.iter().map(|o| crate::ops::Op { rep: 0, ..*o }).collect() };
-                                    let ko = KeyOpts { reps: false, layout: false, no_free: true };
-                                    if let (Some(a0), Some(b0)) = (crate::registry::rebuild::<A>(uni, &flip(&a.hist), ko), crate::registry::rebuild::<B>(uni, &flip(&b.hist), ko)) {
-                                        let (mut am0, mut bm0) = (a0.map.clone(), b0.map.clone());
-                                        let (mut sa0, mut sb0) = (a0.model.entries(), b0.model.entries());
-                                        let mut c0 = PairCounters::default();
-                                        let same_rep = guarded(|| eval_root_pair::<P, A, B>(&mut am0, &mut bm0, &mut sa0, &mut sb0, with_rep(qa, 0, uni.width), with_rep(qb, 0, uni.width), uni.width, 1_000_000, &mut c0));
-                                        if let Ok(vs0) = same_rep {
-                                            let extra: Vec<Viol> = vs
-                                                .iter()
-                                                .filter(|v| matches!(v.prop, "C05" | "C06" | "C07" | "C08") && !vs0.iter().any(|w| w.prop == v.prop && w.site == v.site && w.cond == v.cond))
-                                                .map(|v| Viol::new("C18", v.site.clone(), "set-operation-depends-on-host-bits", format!("with representations differing only in host bits: {}; with identical representations the result is correct", v.detail)))
-                                                .collect();
-                                            vs.extend(extra);
-                                        }
-                                    }
-                                }
+                                let vs = add_repr_dependence::<P, A, B>(vs, &a.hist, &b.hist, qa, qb, uni);
                                 for v in vs {
                                     let sig = (v.prop.to_string(), v.site.clone(), v.cond.clone());
                                     let cost = a.hist.len() + b.hist.len();
